@@ -60,7 +60,7 @@ let query q =
 
 let split_ws s = List.filter (fun x -> x <> "") (String.split_on_char ' ' s)
 
-let mk_crypto backend : crypto =
+let mk_crypto ?(chk = "l") backend : crypto =
   { secp_pk =
       (fun b ->
         match split_ws (query ("secp_pk " ^ backend ^ " " ^ hx b)) with
@@ -69,7 +69,7 @@ let mk_crypto backend : crypto =
     ecdsa_core = (fun pk d sg -> query (Printf.sprintf "ecdsa %s %s %s %s" backend (hx pk) (hx d) (hx sg)) = "1");
     ed_pk_ok = (fun b -> query ("edpk " ^ hx b) = "1");
     ed_core = (fun pk m sg -> query (Printf.sprintf "ed %s %s %s" (hx pk) (hx m) (hx sg)) = "1");
-    secp_chk = (fun b -> query ("secp_pk l " ^ hx b) <> "err") }
+    secp_chk = (fun b -> query ("secp_pk " ^ chk ^ " " ^ hx b) <> "err") }
 
 (* ---- printing ---- *)
 let opt f = function None -> "none" | Some v -> f v
@@ -132,6 +132,8 @@ let rec_obs c kt (r : record) : string =
     in
     add (" acc=" ^ if acc = [] then "-" else String.concat "," acc);
     add " glue=1";
+    (* Valid records re-decode as themselves (valid_redecodes); an invalid one is not re-decoded by the model here *)
+    add (match decode c kt (encode r) with Ok (d, []) when d = r -> " redec=1" | _ -> " redec=0");
     Buffer.contents b
   with ModelPanic -> "panic model"
 
@@ -476,7 +478,7 @@ let () =
   let kt_s = Sys.argv.(1) in
   let kt, backend =
     match kt_s with
-    | "k256" | "k256_plain" -> (K256, "k")
+    | "k256" | "k256_plain" | "k256_default" -> (K256, "k")
     | "libsecp" -> (LibSecp, "l")
     | "ed" -> (Ed, "k")
     | "comb" | "comb_plain" -> (Comb, "k")
@@ -488,7 +490,8 @@ let () =
   let i, o = Unix.open_process (Sys.argv.(4) ^ " oracle") in
   oracle_in := i;
   oracle_out := o;
-  let c = mk_crypto backend in
+  (* check_spec_reserved_keys validates a secp256k1 entry with libsecp256k1 when that feature is compiled in, else with k256 *)
+  let c = mk_crypto ~chk:(if kt_s = "k256_default" then "k" else "l") backend in
   let st = { secrets = Hashtbl.create 16; bcalls = []; bseq = n_of_int 1; cur = None; saved = Hashtbl.create 16; keys = Hashtbl.create 16 } in
   (try
      while true do
